@@ -14,7 +14,7 @@ for d in sorted(glob.glob(os.path.join(HERE, "seeded", "*"))):
             rp = x.get("replay") or {}
             cl = rp.get("clause") or ("correspondence/proof: " + "; ".join(rp.get("broken") or [])[:60] if rp.get("broken") else "?")
             caught.append("%s (%s%s)" % (p, cl, "" if rp.get("kind") == "counterexample" else ", no-failing-input-found"))
-        else:
+        elif p == m.get("property"):
             caught.append("%s: not reported" % p)
     ok = (m.get("verified") or {}).get("confirmed")
     rows.append("| %s | %s | %s | %s | %s |" % (os.path.basename(d), m.get("property"),
